@@ -8,7 +8,7 @@ reversed for display) with child (2x+i, 2y+j) in quadrant (i, j), missing childr
 undefined child pixels undefined; float output = mean of the non-NaN pixels of each 2x2
 block (NaN iff all four are); integer / colour output = mean of the four stored values cast
 to the input type; the parent exists iff a child exists and the merged tile is not entirely
-undefined (all NaN / all alpha 0; integer data have no "entirely undefined" tile here).
+undefined (all NaN / all alpha 0 / all zero for integer data).
 
 Obligations that can be reported.  Witness keys of all of them: format, mode, depth,
 leaves ([[x, y, content-kind], ...]), seed, workers, filter (null|"all"|"populated"),
@@ -35,7 +35,8 @@ Bounds
             pyramids x workers {2, 3, 4}; 12 CLI runs.
   Leaf contents: random pixels with 5-60 % undefined, fully defined, a single defined pixel,
   ~1 % defined, aligned undefined 2x2/4x4 blocks and rows, all-undefined leaves (never
-  stored), faint RGBA (alpha 1..3, merges to an entirely transparent parent), negative
+  stored), faint RGBA (alpha 1..3, merges to an entirely transparent parent), faint integer
+  leaves (isolated |v| <= 3, merge to an all-zero parent that must not exist), negative
   integers, stale tiles pre-existing above populated leaves.
 Trusted: numpy/PIL/astropy codecs (jpg: the parent is compared with the PIL encoding of the
 expected tile, falling back to a mean-absolute-difference <= 3 on smooth content).
@@ -139,7 +140,7 @@ def expected_parent(children, fmt):
     elif bmode == "RGBA":
         empty = bool(np.all(out[..., 3] == 0))
     else:
-        empty = False
+        empty = bool(np.all(out == 0))     # integer data: zero is the undefined value
     if empty:
         return None
     if bu:
@@ -238,8 +239,12 @@ def cascade_case(spec, workdir):
         if spec.get("stale"):
             # tiles already present above populated leaves (an earlier cascade): must be replaced
             nprng = np.random.default_rng([spec["seed"], 99])
+            # (only where a child is certain to exist after the cascade: directly above a populated
+            # leaf, or anywhere above one for floating-point data, whose merges never become
+            # entirely undefined; a stale tile with no child is outside the property's domain)
+            anylevel = spec["mode"] in M.FLOAT_MODES
             for (n, x, y) in sorted(live):
-                if n < depth and nprng.random() < 0.5:
+                if (n == depth - 1 or (anylevel and n < depth)) and nprng.random() < 0.5:
                     bm = M.buffer_mode(spec["mode"])
                     if fmt == "jpg":
                         st = nprng.integers(0, 256, (256, 256, 3), dtype=np.uint8)
@@ -371,8 +376,8 @@ def run(ctx):
             s["negative"] = True
         if mode == "RGBA" and rng.random() < 0.3:
             s["dirty"] = True
-        if mode == "RGBA" and rng.random() < 0.2:
-            s["leaves"] = [[x, y, rng.choice(["faint", k])] for x, y, k in leaves]
+        if (mode == "RGBA" or mode in M.INT_MODES) and rng.random() < 0.2:
+            s["leaves"] = [[x, y, rng.choice(["faint", "faint", k])] for x, y, k in leaves]
         if rng.random() < 0.2:
             s["stale"] = True
         if rng.random() < 0.2:
@@ -422,7 +427,7 @@ def run(ctx):
     ctx.bound("%d of these pyramids re-run with workers in %r and compared tile by tile with the serial run; %d runs through `toasty cascade`" % (
         len(par_bases), wlist, ncli))
     ctx.assume("numpy .npy / PIL PNG+JPEG / astropy.io.fits decoders; JPEG parents: PIL's encoder is deterministic")
-    ctx.note("integer tiles have no 'entirely undefined' state in this property: a parent of integer data exists iff a child exists")
+    ctx.note("integer tiles: zero is the undefined value, a parent whose merged tile is all zero must not exist; signed leaves are negative in ~25 % of the I16/I32 pyramids")
     ctx.note("a stale tile above the start level with no existing child is outside the explored domain (prior state is not quantified by C02)")
 
     # serial runs: batched in isolated interpreters; parallel runs: one interpreter each
